@@ -13,6 +13,8 @@ WEIGHTS = [
 ]
 FUNCS = [n for n, _ in WEIGHTS]
 WHEEL = [n for n, w in WEIGHTS for _ in range(w)]
+PAIRABLE = ("hillshade", "focal_mean", "focal_apply", "focal_stats", "hotspots", "convolution_2d", "binary",
+            "reclassify", "equal_interval", "evi", "savi", "true_color", "perlin", "generate_terrain", "slope")
 NBANDS = {"arvi": 3, "evi": 3, "gci": 2, "nbr": 2, "nbr2": 2, "ndvi": 2, "ndmi": 2, "savi": 2,
           "sipi": 3, "ebbi": 3, "true_color": 3}
 
@@ -40,6 +42,68 @@ def gen_dask_config(rng):
     if rng.random() < 0.25:
         cfg["optimization.fuse.active"] = False
     return cfg
+
+
+def draw_params(op, rng, H, W, tier="quick"):
+    """Parameters of one call of `op` on an H x W raster (kernel half-size <= raster size)."""
+    params = {}
+    if op == "hillshade":
+        params = {"azimuth": rng.choice([225, 0, 90, 315, 47.5]),
+                  "angle_altitude": rng.choice([25, 0, 45, 90, 12.5])}
+    elif op == "focal_mean":
+        params = {"passes": rng.choice([0, 1, 1, 2, 3])}
+        r = rng.random()
+        if r < 0.3:
+            params["excludes"] = [float("nan"), float(rng.choice([0, 1, 2, 10]))]
+        elif r < 0.45:
+            params["excludes"] = [float(rng.choice([0, 1, 3]))]
+    elif op == "focal_apply":
+        params = {"kernel": g.kernel_mask(rng, H, W),
+                  "func": rng.choice(["mean", "sum", "max", "std", "user_posweight", "user_posweight"]
+                                     if tier == "quick" else
+                                     ["mean", "sum", "min", "max", "std", "range", "var",
+                                      "user_posweight", "user_posweight", "user_count"])}
+    elif op == "focal_stats":
+        allst = ["mean", "max", "min", "range", "std", "var", "sum"]
+        params = {"kernel": g.kernel_mask(rng, H, W)}
+        if rng.random() < 0.7:
+            k = rng.randint(1, 3)
+            params["stats_funcs"] = rng.sample(allst, k)
+    elif op == "hotspots":
+        params = {"kernel": g.kernel_mask(rng, H, W)}
+    elif op == "convolution_2d":
+        params = {"kernel": g.kernel_weights(rng, H, W)}
+    elif op == "binary":
+        params = {"values": [float(v) for v in rng.sample([0, 1, 2, 3, 4, 10, 20, 30, 255, 0.1, 0.5, 2.5, 0.7,
+                                                           1 / 3.0, 16777217.0], rng.randint(1, 4))]}
+    elif op == "reclassify":
+        n = rng.randint(1, 8)
+        bins = sorted(rng.sample([0, 1, 2, 3, 5, 8, 10, 16, 20, 32, 50, 64, 100, 1e6, 2e7], n))
+        params = {"bins": [float(b) for b in bins], "new_values": [float(rng.randint(0, 9)) for _ in bins]}
+    elif op == "equal_interval":
+        params = {"k": rng.choice([1, 2, 3, 5, 7])}
+    elif op == "evi":
+        if rng.random() < 0.6:
+            params = {"c1": rng.choice([6.0, 1.0, 2.5]), "c2": rng.choice([7.5, 0.5, 3.0]),
+                      "soil_factor": rng.choice([1.0, 0.0, 0.5]), "gain": rng.choice([2.5, 1.0, 10.0])}
+    elif op == "savi":
+        if rng.random() < 0.7:
+            params = {"soil_factor": rng.choice([1.0, 0.0, 0.5, -1.0, 0.25])}
+    elif op == "true_color":
+        if rng.random() < 0.7:
+            params = {"nodata": rng.choice([1, 0, 10, 50]), "c": rng.choice([10.0, 1.0, 25.0]),
+                      "th": rng.choice([0.125, 0.5, 0.0])}
+    elif op == "perlin":
+        params = {"freq": (rng.choice([1, 2, 0.5, 5]), rng.choice([1, 3, 0.25])),
+                  "seed": rng.choice([5, 0, 1, 12345])}
+    elif op == "generate_terrain":
+        params = {"seed": rng.choice([10, 0, 3]), "zfactor": rng.choice([4000, 1, 100])}
+        if rng.random() < 0.5:
+            params["x_range"] = (0, rng.choice([500, 10, 37]))
+            params["y_range"] = (rng.choice([0, -5]), rng.choice([500, 20]))
+        if rng.random() < 0.3:
+            params["full_extent"] = (-100, -100, 1000, 1000)
+    return params
 
 
 def gen_case(st, i, tier="quick", op=None, max_dim=None):
@@ -81,61 +145,7 @@ def gen_case(st, i, tier="quick", op=None, max_dim=None):
         rasters = [g.raster(rng, H, W, dtype if b == 0 or rng.random() < 0.6 else rng.choice(band_dtypes),
                             geo=geo, name=name) for b in range(nb)]
 
-    if op == "hillshade":
-        params = {"azimuth": rng.choice([225, 0, 90, 315, 47.5]),
-                  "angle_altitude": rng.choice([25, 0, 45, 90, 12.5])}
-    elif op == "focal_mean":
-        params = {"passes": rng.choice([0, 1, 1, 2, 3])}
-        r = rng.random()
-        if r < 0.3:
-            params["excludes"] = [float("nan"), float(rng.choice([0, 1, 2, 10]))]
-        elif r < 0.45:
-            params["excludes"] = [float(rng.choice([0, 1, 3]))]
-    elif op == "focal_apply":
-        params = {"kernel": g.kernel_mask(rng, H, W),
-                  "func": rng.choice(["mean", "sum", "max", "std", "user_posweight", "user_posweight"]
-                                     if tier == "quick" else
-                                     ["mean", "sum", "min", "max", "std", "range", "var",
-                                      "user_posweight", "user_posweight", "user_count"])}
-    elif op == "focal_stats":
-        allst = ["mean", "max", "min", "range", "std", "var", "sum"]
-        params = {"kernel": g.kernel_mask(rng, H, W)}
-        if rng.random() < 0.7:
-            k = rng.randint(1, 3)
-            params["stats_funcs"] = rng.sample(allst, k)
-    elif op == "hotspots":
-        params = {"kernel": g.kernel_mask(rng, H, W)}
-    elif op == "convolution_2d":
-        params = {"kernel": g.kernel_weights(rng, H, W)}
-    elif op == "binary":
-        params = {"values": [float(v) for v in rng.sample([0, 1, 2, 3, 4, 10, 20, 30, 255], rng.randint(1, 4))]}
-    elif op == "reclassify":
-        n = rng.randint(1, 8)
-        bins = sorted(rng.sample([0, 1, 2, 3, 5, 8, 10, 16, 20, 32, 50, 64, 100, 1e6, 2e7], n))
-        params = {"bins": [float(b) for b in bins], "new_values": [float(rng.randint(0, 9)) for _ in bins]}
-    elif op == "equal_interval":
-        params = {"k": rng.choice([1, 2, 3, 5, 7])}
-    elif op == "evi":
-        if rng.random() < 0.6:
-            params = {"c1": rng.choice([6.0, 1.0, 2.5]), "c2": rng.choice([7.5, 0.5, 3.0]),
-                      "soil_factor": rng.choice([1.0, 0.0, 0.5]), "gain": rng.choice([2.5, 1.0, 10.0])}
-    elif op == "savi":
-        if rng.random() < 0.7:
-            params = {"soil_factor": rng.choice([1.0, 0.0, 0.5, -1.0, 0.25])}
-    elif op == "true_color":
-        if rng.random() < 0.7:
-            params = {"nodata": rng.choice([1, 0, 10, 50]), "c": rng.choice([10.0, 1.0, 25.0]),
-                      "th": rng.choice([0.125, 0.5, 0.0])}
-    elif op == "perlin":
-        params = {"freq": (rng.choice([1, 2, 0.5, 5]), rng.choice([1, 3, 0.25])),
-                  "seed": rng.choice([5, 0, 1, 12345])}
-    elif op == "generate_terrain":
-        params = {"seed": rng.choice([10, 0, 3]), "zfactor": rng.choice([4000, 1, 100])}
-        if rng.random() < 0.5:
-            params["x_range"] = (0, rng.choice([500, 10, 37]))
-            params["y_range"] = (rng.choice([0, -5]), rng.choice([500, 20]))
-        if rng.random() < 0.3:
-            params["full_extent"] = (-100, -100, 1000, 1000)
+    params = draw_params(op, rng, H, W, tier)
 
     crng = st["chunks"]
     for r in rasters:
@@ -152,6 +162,11 @@ def gen_case(st, i, tier="quick", op=None, max_dim=None):
             "dask_config": gen_dask_config(st["config"])}
     if sweep:
         case["sweep"] = True
+    prng = st["pair"]
+    if op in PAIRABLE and prng.random() < 0.25:
+        # a second call of the same op on the same Dask rasters with its own parameters; both lazy
+        # results are then computed by ONE dask.compute (one merged graph, one schedule)
+        case["pair"] = {"params": draw_params(op, prng, H, W, tier)}
     if op in ("perlin", "generate_terrain") and st["config"].random() < 0.6:
         case["dask_config"]["array.chunk-size"] = st["config"].choice(["64 B", "64 B", "200 B"])
     return case
@@ -180,4 +195,5 @@ def reach(case):
     r["int_dtype"] = d.dtype.kind in "iu"
     r["chunk_size_knob"] = "array.chunk-size" in case.get("dask_config", {})
     r["chunk_sweep_case"] = bool(case.get("sweep"))
+    r["pair_in_one_compute"] = bool(case.get("pair"))
     return r
